@@ -443,9 +443,95 @@ func verifyMain(args []string) int {
 	return write()
 }
 
+// crashagain <dir> <workload.json> <out.json> <killAt>: second crash without client writes. The
+// crash image is reopened on a counting FaultFS; the visible contents are dumped as soon as Open
+// returns (out.json), then recovery's background flushes / compactions go on until the killAt-th
+// durable file operation after the dump kills it, or, failing that, until the flush queue is
+// empty and the process kills itself. The database is never closed.
+func againMain(args []string) int {
+	if len(args) < 4 {
+		return 2
+	}
+	dir, outPath := args[0], args[2]
+	var w Workload
+	if err := json.Unmarshal([]byte(args[1]), &w); err != nil {
+		return 2
+	}
+	killAt, _ := strconv.ParseInt(args[3], 10, 64)
+	res := VerifyResult{}
+	write := func() {
+		b, _ := json.Marshal(res)
+		_ = os.WriteFile(outPath+".tmp", b, 0o644)
+		_ = os.Rename(outPath+".tmp", outPath)
+	}
+	ctr := NewCounter(killAt)
+	ctr.hist = nil
+	var armed atomic.Bool // operations are counted from the moment the first dump is on disk
+	o := w.Options(dir)
+	o.FS = vfs.NewFaultFS(vfs.OSFS{}, func(op vfs.Op, path string) error {
+		if !Durable(op) || !armed.Load() {
+			return nil
+		}
+		if n := ctr.n.Add(1); n == ctr.KillAt {
+			_ = syscall.Kill(os.Getpid(), syscall.SIGKILL)
+			select {}
+		}
+		return nil
+	})
+	db, err := dbx.Open(o)
+	if err != nil {
+		res.OpenError = err.Error()
+		write()
+		return 0
+	}
+	res.First = dumpDB(db, w)
+	res.Layout = dbx.LayoutShape(db)
+	res.Actions = []string{fmt.Sprintf("crash-again@%d", killAt)}
+	write()
+	armed.Store(true)
+	db.VerifLSM().VerifWaitFlush(20 * time.Second)
+	time.Sleep(20 * time.Millisecond)
+	_ = syscall.Kill(os.Getpid(), syscall.SIGKILL)
+	select {}
+}
+
+// RunAgain runs the crashagain child and returns what it wrote before it died.
+func RunAgain(dir string, w Workload, killAt int64, scratch string) (VerifyResult, error) {
+	wj, _ := json.Marshal(w)
+	out := filepath.Join(scratch, fmt.Sprintf("again-%d.json", time.Now().UnixNano()))
+	defer os.Remove(out)
+	defer os.Remove(out + ".tmp")
+	cmd := exec.Command(core.SelfExe(), "worker", "crashagain", dir, string(wj), out, strconv.FormatInt(killAt, 10))
+	var buf bytes.Buffer
+	cmd.Stdout = &buf
+	cmd.Stderr = &buf
+	if err := cmd.Start(); err != nil {
+		return VerifyResult{}, err
+	}
+	done := make(chan error, 1)
+	go func() { done <- cmd.Wait() }()
+	select {
+	case <-done:
+	case <-time.After(3 * time.Minute):
+		_ = cmd.Process.Kill()
+		<-done
+		return VerifyResult{}, errors.New("crash-again watchdog (3m) fired")
+	}
+	var res VerifyResult
+	b, rerr := os.ReadFile(out)
+	if rerr != nil {
+		return res, nil // killed before the dump was complete
+	}
+	if err := json.Unmarshal(b, &res); err != nil {
+		return res, err
+	}
+	return res, nil
+}
+
 func init() {
 	core.RegisterWorker("crashdb", workerMain)
 	core.RegisterWorker("crashverify", verifyMain)
+	core.RegisterWorker("crashagain", againMain)
 }
 
 // ---------------------------------------------------------------------------
@@ -783,6 +869,28 @@ func RunPoint(c *core.Case, w Workload, p Point, maint string) Outcome {
 			out.Err = fmt.Errorf("worker failed without being killed: %v: %s", werr, stderr)
 			return out
 		}
+	}
+	if strings.HasPrefix(maint, "crash-again@") {
+		k, _ := strconv.ParseInt(strings.TrimPrefix(maint, "crash-again@"), 10, 64)
+		first, aerr := RunAgain(dir, w, k, filepath.Dir(dir))
+		if aerr != nil {
+			out.Err = aerr
+			return out
+		}
+		if first.OpenError != "" {
+			out.Verify = first
+			return out
+		}
+		vr, verr := RunVerifier(dir, w, "none", filepath.Dir(dir))
+		if verr != nil {
+			out.Err = verr
+			return out
+		}
+		out.Verify = VerifyResult{First: first.First, Second: vr.First, Actions: append(first.Actions, "reopen"), Layout: vr.Layout}
+		if vr.OpenError != "" {
+			out.Verify.OpenError = "reopen after maintenance: " + vr.OpenError
+		}
+		return out
 	}
 	vr, verr := RunVerifier(dir, w, maint, filepath.Dir(dir))
 	if verr != nil {
